@@ -103,10 +103,18 @@ def node_session(v, pid, cmds, tier, seed, rule, prefixes=None, timeout=3000, ra
     s, b = build(pid, "node", need_rocks=True, race=race)
     results = {}
     v.coverage["rule"] = rule
-    for cmd in cmds:
+    from concurrent.futures import ThreadPoolExecutor
+
+    def one(cmd):
         try:
-            res = run_cmd(s, b, cmd, tier, seed, timeout=timeout, sub=cmd)
+            return cmd, run_cmd(s, b, cmd, tier, seed, timeout=timeout, sub=cmd), None
         except HarnessCrash as e:
+            return cmd, None, e
+
+    with ThreadPoolExecutor(max_workers=3) as ex:
+        outs = list(ex.map(one, cmds))
+    for cmd, res, e in outs:
+        if e is not None:
             m = re.search(r"(panic: [^\n]*|fatal error: [^\n]*|Assertion[^\n]*)", str(e))
             why = m.group(1) if m else "process died"
             v.violation("%s:process-death:%s" % (pid, cmd), "the process hosting the node(s) died during a scenario of `%s`: %s" % (cmd, why[:300]),
